@@ -145,8 +145,7 @@ class Ctx:
             timeout=900, extra=None, coverage=False, name=None, dfs=False):
         """Run TLC in a scratch copy of spec_dir. Returns dict(out, generated, distinct, ok, violated)."""
         name = name or (module + "_" + os.path.splitext(os.path.basename(cfg))[0])
-        work = os.path.join(self.scratch, "tlc_" + name + "_%d" % int(time.time() * 1000 % 1e9))
-        os.makedirs(work)
+        work = tempfile.mkdtemp(prefix="tlc_" + name + "_", dir=self.scratch)
         for f in glob.glob(os.path.join(spec_dir, "*.tla")) + glob.glob(os.path.join(spec_dir, "*.cfg")):
             shutil.copy(f, work)
         for d in glob.glob(os.path.join(SPEC, "*")):       # modules shared between directories
@@ -344,6 +343,11 @@ def main_wrapper(pid, fn, level="model_checking"):
         rc = ctx.inconclusive(str(e))
     except subprocess.TimeoutExpired as e:
         rc = ctx.inconclusive("timeout: %s" % e)
+    except BaseException as e:      # a crash of the machinery is never a verdict
+        if isinstance(e, (KeyboardInterrupt, SystemExit)):
+            raise
+        import traceback
+        rc = ctx.inconclusive("machinery error: %s\n%s" % (e, traceback.format_exc()[-3000:]))
     sys.exit(rc)
 
 
